@@ -34,7 +34,7 @@ def gates(tier):
         "min_decided": {"A.counterexample(B)": 1500 * k, "A == B": 1500 * k, "A.min.dim": 1500 * k, "A.min(xs)": 10000 * k},
         "shapes": {c: 5 * k for c in ["pair:equivalent", "pair:different", "eq:rename", "eq:useless", "eq:split", "eq:zero-union",
                                       "eq:epsremoved", "neg_weight", "eps_arc", "empty_language", "no_final", "no_initial",
-                                      "fractional", "rank<dim", "eq:useless-newsymbol", "scale:big-automaton"]},
+                                      "fractional", "rank<dim", "eq:useless-newsymbol", "scale:big-automaton"]} | {"scale:20-32-states": 2 * k, "scale:dense-20-28-states": k},
         "min_events": {"min.proj_calls": 2000 * k},
         "min_hashseeds": 2,
     }
@@ -44,9 +44,23 @@ def gen_case(rng, spec):
     from rv.gen import automata as GA
 
     # tiny=False: "well-conditioned weights" - the floating-point tests use absolute tolerances around 1e-8
+    if rng.random() < 0.012:
+        # scale: 20-28 states with DENSE transitions (each state has an arc to about a third of the states per symbol,
+        # weights 0.06-0.60): the reachable vectors are dense, so Gram-Schmidt really has to orthogonalise
+        n = rng.randint(20, 28)
+        # weights scaled so that a row sums to about 1 per symbol: the reachable vectors neither explode nor vanish
+        # (unscaled, they grow 2.6-fold per symbol, the depth-first basis aligns with the dominant eigenvector, and the
+        # unchanged minimiser itself returns 27 states for a 26-state automaton: not "well-conditioned weights")
+        c = max(1, round(0.1 * n))
+        arcs = [[i, a, j, Fr(rng.randint(6, 60), 100 * c)] for i in range(n) for a in "ab" for j in range(n) if rng.random() < 0.3]
+        m = {"n": n, "names": list(range(n)), "alphabet": ["a", "b"], "scale": True, "dense": True,
+             "start": [[i, Fr(rng.randint(20, 100), 100)] for i in range(n) if i == 0 or rng.random() < 0.3],
+             "stop": [[i, Fr(rng.randint(20, 100), 100)] for i in range(n) if i == n - 1 or rng.random() < 0.4], "arcs": arcs}
+        return {"A": m, "how": rng.choice(["rename", "useless", "zero-union", "diff-arc", "diff-final"]), "bseed": rng.randrange(1 << 30)}
     if rng.random() < 0.05:
-        # scale: 8-14 states (two-digit state indices), three symbols, a state with many arcs, 3+ initial / final states
-        m = GA.gen_big_wfsa(rng, alphabet=["a", "b", "c"])
+        # scale: 8-14 states (two-digit state indices), three symbols, a state with many arcs, 3+ initial / final states;
+        # one in four: 20-32 states (the orthogonalisations of `min` accumulate rounding over that many basis vectors)
+        m = GA.gen_big_wfsa(rng, alphabet=["a", "b", "c"], n_range=(8, 14) if rng.random() < 0.75 else (20, 32))
         m.pop("big")
         m["scale"] = True
     else:
@@ -216,6 +230,10 @@ def run_case(case, ctx):
         cls.add("rank<dim")
     if A.get("scale"):
         cls.add("scale:big-automaton")
+        if A["n"] >= 20:
+            cls.add("scale:20-32-states")
+        if A.get("dense"):
+            cls.add("scale:dense-20-28-states")
     cls.add("pair:equivalent" if equivalent else "pair:different")
     if equivalent:
         cls.add(f"eq:{case['how']}")
@@ -300,6 +318,15 @@ def run_case(case, ctx):
             ctx.check(APIS[2], mn.dim == rank, "min/dim-not-hankel-rank", case, {"min.dim": mn.dim, "hankel_rank": rank, "input_states": A["n"]})
         else:
             ctx.skip(APIS[2], "generator:ill-conditioned-hankel")
+            # whatever the conditioning, a minimal automaton never has MORE states than the exact rank: keeping a
+            # dependent direction would need a residual above the minimiser's tolerance (1e-5 relative), far beyond rounding
+            ctx.check(APIS[2], mn.dim <= rank, "min/dim-exceeds-hankel-rank", case, {"min.dim": mn.dim, "hankel_rank": rank, "input_states": A["n"]})
+        if not well and mn.dim != rank:
+            # the minimiser's tolerance (1e-8 absolute, 1e-5 relative) dropped or kept a nearly dependent direction of an
+            # input that is not "well conditioned" in the property's sense: the weights of the result are then off by
+            # design (observed: 38 % on a 22-state automaton with singular values down to 7e-6), not by a defect
+            ctx.skip(APIS[3], "generator:ill-conditioned-hankel")
+            return
         for x in GG.strings_upto(A["alphabet"], 4 if len(A["alphabet"]) == 1 else 3):
             ok, v = ctx.call(APIS[3], dict(case, x=list(x)), mn, x, mech_prefix="min(xs)")
             if ok:
